@@ -1254,6 +1254,10 @@ val tabs0 : nat -> char list
 
 val w_safename : char list -> char list
 
+val clafer_keywords : char list list
+
+val cl_safename : char list -> char list
+
 type sxf =
 | SxF of char list * sxitem list
 and sxitem =
